@@ -121,6 +121,24 @@ func (l *c08Local) apply(op c08Op, mids []string) int {
 		}
 
 		return c08OpDone
+	case "setsender":
+		// RTPTransceiver.SetSender with a fresh sender and track: the public way to start sending on a
+		// transceiver that AddTrack would not pick (its direction becomes send-capable whatever was offered)
+		tr := l.byMid(mids[op.Sec])
+		if tr == nil || tr.Sender() != nil {
+			return c08OpInapplicable
+		}
+		l.n++
+		track := vAnsTrack(l.t, tr.Kind(), fmt.Sprint(l.n))
+		sender, err := l.pc.api.NewRTPSender(track, l.pc.dtlsTransport)
+		if err != nil {
+			return c08OpRefused
+		}
+		if err = tr.SetSender(sender, track); err != nil {
+			return c08OpRefused
+		}
+
+		return c08OpDone
 	}
 	panic("harness: unknown op " + op.Kind)
 }
@@ -353,6 +371,9 @@ func c08Ops(kinds []string, first, withMid bool) []c08Op {
 	for i := range kinds {
 		base = append(base, c08Op{Kind: "remove", Sec: i})
 	}
+	for i := range kinds {
+		base = append(base, c08Op{Kind: "setsender", Sec: i})
+	}
 	out := []c08Op{{}}
 	if !first { // before the first offer the local side is given by Init
 		out = append(out, base...)
@@ -480,7 +501,7 @@ func c08PairHistories(p c08PairPlan) []c08PairCase {
 func TestVerifC08(t *testing.T) {
 	c := vkit.New("C08", "model_checking")
 	defer c.Finish(t)
-	c.Rule("history = (media kind per section, local transceiver per section before the first offer {none, recvonly, sendonly+track, sendrecv+track, inactive}, rounds); round = (local operation {none, AddTrack(kind), RemoveTrack(sender of section i)} executed before the offer is applied or between SetRemoteDescription and CreateAnswer, offered direction per section in {sendrecv, sendonly, recvonly, inactive}); every round runs SetRemoteDescription(offer) -> CreateAnswer -> SetLocalDescription(answer) on one PeerConnection. Part B: two live PeerConnections, offerer per round, AddTrack/RemoveTrack on either side between rounds, full offer/answer exchange. State = per mid (local transceiver direction, offered direction); non-trivial = a judged (offered, local-before, answered, first/re-offer) combination")
+	c.Rule("history = (media kind per section, local transceiver per section before the first offer {none, recvonly, sendonly+track, sendrecv+track, inactive}, rounds); round = (local operation {none, AddTrack(kind), RemoveTrack(sender of section i), RTPTransceiver.SetSender(fresh sender) on section i} executed before the offer is applied or between SetRemoteDescription and CreateAnswer, offered direction per section in {sendrecv, sendonly, recvonly, inactive}); every round runs SetRemoteDescription(offer) -> CreateAnswer -> SetLocalDescription(answer) on one PeerConnection. Part B: two live PeerConnections, offerer per round, AddTrack/RemoveTrack on either side between rounds, full offer/answer exchange. State = per mid (local transceiver direction, offered direction); non-trivial = a judged (offered, local-before, answered, first/re-offer) combination")
 	c.Assume("rejected (port 0) sections and sections absent from the answer are not judged here (C07)")
 	c.Assume("the live offerer's directions are those reachable through pion's public API (AddTransceiverFrom*, AddTrack, RemoveTrack)")
 
